@@ -13,6 +13,8 @@ import (
 	"bytes"
 	"encoding/json"
 	"fmt"
+	"os"
+	"path/filepath"
 	"strings"
 
 	"github.com/glowlabs-org/gca-backend/glow"
@@ -26,7 +28,7 @@ func init() {
 		Rule:           "runs = 1-4 batches of 2-8 concurrent registration requests (valid for 3 candidate keys, wrong signer, altered key, replays) released in seeded orders, interleaved with restarts and with equipment / server / migration authority attempts signed by temp key, losers and winner; non-trivial = at least two valid registrations for different keys competed in one batch; distinct = distinct decision signatures",
 		Real:           []string{"RegisterGCAHandler/registerGCA/saveGCAKey", "loadGCAPubkey at restart", "AuthorizeEquipmentHandler, AuthorizedServersHandlerPOST, EquipmentMigrateHandler authority checks"},
 		Stub:           []string{"socket listeners; concurrency is the seeded release order of request tasks (one critical section per registration) - real parallel execution is covered by C13's race mode"},
-		RequiredProbes: []string{"c07.competition", "c07.replay-after-success", "c07.after-restart", "c07.loser-signs", "c07.pre-registration-authority", "c07.degenerate-candidate"},
+		RequiredProbes: []string{"c07.competition", "c07.replay-after-success", "c07.after-restart", "c07.loser-signs", "c07.pre-registration-authority", "c07.degenerate-candidate", "c07.key-file-unwritable"},
 		RequiredSites:  []string{"gcakey.after-write"},
 	})
 }
@@ -137,6 +139,19 @@ func runC07(m *Sim) {
 		if n.Model.Registered {
 			m.Probe("c07.replay-after-success")
 		}
+		// Disk fault: for the time of this batch the key file cannot be written
+		// (a directory sits at its path: every write system call on it fails).
+		// No registration may succeed, and - checked by authority() below - a
+		// candidate refused this way has gained nothing.
+		diskFault := false
+		keyPath := filepath.Join(n.Dir, "gcaPubKey.dat")
+		if !n.Model.Registered && m.C.Chance("key-file-unwritable", 1, 6) {
+			if err := os.Mkdir(keyPath, 0755); err == nil {
+				diskFault = true
+				m.Fault("disk.write-fails")
+				m.Probe("c07.key-file-unwritable")
+			}
+		}
 		mark := len(m.ReleaseLog)
 		for i, r := range reqs {
 			body, _ := json.Marshal(r.reg)
@@ -162,6 +177,13 @@ func runC07(m *Sim) {
 			if r.res.Panic != nil {
 				m.Fail("C07.panic", "register", "registration handler panicked: %v", r.res.Panic)
 			}
+			if diskFault {
+				if r.res.Status == 200 {
+					m.Fail("C07.once", "disk-fault", "registration %s answered 200 although the key file could not be written", r.kind)
+				}
+				m.Sig = append(m.Sig, "reg-diskfault:"+r.kind)
+				continue
+			}
 			want := n.Model.Register(r.reg.GCAKey, r.reg.Signature)
 			if (r.res.Status == 200) != want {
 				m.Fail("C07.once", r.kind, "registration %s: status %d, sequential rules in execution order say success=%v", r.kind, r.res.Status, want)
@@ -173,6 +195,11 @@ func runC07(m *Sim) {
 		}
 		if wins > 1 {
 			m.Fail("C07.once", "batch", "%d registrations of one batch succeeded", wins)
+		}
+		if diskFault {
+			if err := os.Remove(keyPath); err != nil {
+				panic("harness: cannot remove the fault directory: " + err.Error())
+			}
 		}
 		c07Key(w, n)
 		authority("post-batch")
